@@ -157,15 +157,16 @@ func init() {
 
 	streams["stall"] = func(g *gen, cw *caseWriter, n int, thorough bool) {
 		type stallCase struct {
-			name       string
-			phase      int // 0 = authentication reply, 1 = user reply, 2 = request direction (peer stops reading)
-			offset     int
-			mode       string // stall | trickle | endless-zero | endless-random | oversize
-			ct, st, rt time.Duration
-			buf        uint16
-			took       time.Duration
-			bound      time.Duration
-			res        string
+			name        string
+			phase       int // 0 = authentication reply, 1 = user reply, 2 = request direction (peer stops reading)
+			offset      int
+			mode        string // stall | trickle | endless-zero | endless-random | oversize
+			ct, st, rt  time.Duration
+			buf         uint16
+			took        time.Duration
+			bound       time.Duration
+			res         string
+			mustSucceed bool
 		}
 		var cases []*stallCase
 		cfgs := [][3]time.Duration{{300 * time.Millisecond, 150 * time.Millisecond, 150 * time.Millisecond}}
@@ -188,6 +189,11 @@ func init() {
 		for _, bb := range []uint16{2, 64, 2047, 2048, 2049} {
 			cases = append(cases, &stallCase{name: fmt.Sprintf("silent buf=%d", bb), phase: 1, offset: 0, mode: "stall", ct: cfgs[0][0], st: cfgs[0][1], rt: cfgs[0][2], buf: bb})
 			cases = append(cases, &stallCase{name: fmt.Sprintf("answering buf=%d", bb), phase: 9, mode: "stall", ct: cfgs[0][0], st: cfgs[0][1], rt: cfgs[0][2], buf: bb})
+		}
+		// the two time-outs are independent: with a send time-out much shorter than the receive time-out, a reply that
+		// arrives in pieces 250 ms apart (well inside the receive time-out) is returned
+		for phase := 0; phase < 2; phase++ {
+			cases = append(cases, &stallCase{name: "gaps-longer-than-send-timeout", phase: phase, mode: "gaps", ct: 300 * time.Millisecond, st: 100 * time.Millisecond, rt: 2 * time.Second, mustSucceed: true})
 		}
 		// zero / negative timeouts must fall back to 3 s, not to "no timeout"
 		cases = append(cases, &stallCase{name: "default-timeouts", phase: 1, offset: 10, mode: "stall", ct: 0, st: -1, rt: 0})
@@ -265,6 +271,22 @@ func init() {
 								}
 								time.Sleep(40 * time.Millisecond)
 							}
+						case "gaps":
+							encReply()
+							for i := 0; i < len(ct); i += 24 {
+								e := i + 24
+								if e > len(ct) {
+									e = len(ct)
+								}
+								if _, err := b.Write(ct[i:e]); err != nil {
+									return
+								}
+								if e < len(ct) {
+									time.Sleep(250 * time.Millisecond)
+								}
+							}
+							reqNo++
+							continue
 						case "block-trickle":
 							// whole cipher blocks of a frame that never completes (announces 60 000 bytes), one every third of the time-out
 							big := frameBytes(make([]byte, 60000), true, 1, 2)
@@ -370,6 +392,8 @@ func init() {
 				}
 			} else if c.res == "panic" {
 				prop = "FAIL C10 client panics"
+			} else if c.mustSucceed && c.res != "ok" {
+				prop = fmt.Sprintf("FAIL C07 a reply delivered in pieces 250 ms apart, inside the receive time-out of %v, is not returned (result %s after %v; send time-out %v) ;; FAIL C10 the receive path is governed by the send time-out", c.rt, c.res, c.took.Round(time.Millisecond), c.st)
 			}
 			eff, _ := rscp.VerifCheckConfig(rscp.ClientConfig{Address: "a", Username: "u", Password: "p", Key: "k", ConnectionTimeout: c.ct, SendTimeout: c.st, ReceiveTimeout: c.rt})
 			cw.add(fmt.Sprintf("bound %d %d %d", int64(c.ct), int64(c.st), int64(c.rt)),
